@@ -98,6 +98,14 @@ def run(r):
     # the edits that are right must also be the model's insertion (Model/ParamEdit.v)
     terms = [(i, "(%s, %s, %s)" % (c["before"], L.cstr(c["x"]), c["after"])) for i, c in enumerate(kcases)]
     codes = core.eval_in_coq("C17_edits", MODULE, "verdict_edit", terms)
+    sterms = [(i, "(%s, %d%%nat, %d%%nat)" % (L.clist(["%d%%N" % b for b in c["bytes"]]), c["name_start"], c["impl"])) for i, c in enumerate(scases)]
+    scodes = core.eval_in_coq("C17_star", MODULE, "verdict_star", sterms) if sterms else {}
+    sdiffer = [scases[i] for i in sorted(scodes) if scodes[i]]
+    if sdiffer and not bad:
+        c = sdiffer[0]
+        r.violation(dict({"property": PID, "broken": "corr:C17 (Model/ParamEdit.v star_start and the offset the server inserts at differ for a starred first parameter)"},
+                         **{k: c[k] for k in ("function", "text", "edits", "name_start", "impl")}), "star_corr", no_input=True)
+    r.notes.append("text level: %d insertions in front of a starred first parameter compared with Model/ParamEdit.v star_start (%d differ)" % (len(scases), len(sdiffer)))
     differs = [kcases[i] for i in sorted(codes) if codes[i] and codes[i][0][1] & 1]
     invalid = [kcases[i] for i in sorted(codes) if codes[i] and codes[i][0][1] & 2]
     for k, c in enumerate(invalid[:2]):
@@ -165,7 +173,8 @@ def gen_edit_doc(rnd):
         first_starred = False
         if not in_class and rnd.random() < 0.15:
             # the FIRST parameter is a starred one: the new name goes in front of the star(s)
-            ps = rnd.choice([["**kw"], ["**kwargs: int"], ["*args"], ["*args", "**kw"], ["*", "k1=None"], ["*", "k1", "**kw"], ["*rest: int", "k2=1"]])
+            ps = rnd.choice([["**kw"], ["**kwargs: int"], ["*args"], ["*args", "**kw"], ["*", "k1=None"], ["*", "k1", "**kw"], ["*rest: int", "k2=1"],
+                             ["*\targs"], ["**\tkw"], ["* args", "** kw"], ["*\t rest: int", "k2=1"]])
             pos, posd, head = [], [], []
             star = next((x for x in ps if x.startswith("*") and not x.startswith("**")), None)
             tail = ps
@@ -261,6 +270,30 @@ def fn_kinds(tree, fname):
     return "[" + "; ".join("(%s, %s)" % (k, L.cstr(n)) for k, n in out) + "]"
 
 
+scases = []     # text-level cases for Model/ParamEdit.v star_start: (document bytes, name offset, offered offset)
+
+
+def star_case(text, node, edits):
+    """when the new name must go in front of a starred FIRST parameter: the document's bytes, the byte offset
+    of that parameter's name (CPython) and the byte offset the server's edit inserts at; else None"""
+    if node is None or len(edits) != 1 or not text.isascii():
+        return None
+    a = node.args
+    npos = len(a.posonlyargs) + len(a.args)
+    if npos - len(a.defaults) > 0:
+        return None                      # a positional parameter without default: the name goes behind it
+    firsts = [(x.lineno, x.col_offset, "plain") for x in a.posonlyargs + a.args + a.kwonlyargs]
+    firsts += [(x.lineno, x.col_offset, "star") for x in (a.vararg, a.kwarg) if x is not None]
+    if not firsts or min(firsts)[2] != "star":
+        return None
+    starts = [0]
+    for l in text.split("\n"):
+        starts.append(starts[-1] + len(l) + 1)
+    ln, col, _ = min(firsts)
+    e = edits[0]["range"]["start"]
+    return {"bytes": list(text.encode()), "name_start": starts[ln - 1] + col, "impl": starts[e["line"]] + e["character"]}
+
+
 def judge_edit(text, new_text, fname, fixture):
     """-> None if the edit is right, else a reason"""
     try:
@@ -283,6 +316,7 @@ def explore_edits(r, rnd, ndocs):
     binp = core.build_binary()
     base = tempfile.mkdtemp(prefix="verif_c17_")
     bad, stats, kcases = [], collections.Counter(), []
+    del scases[:]
     try:
         srv = lsp.Server(binp, root=base, timeout=30)
         try:
@@ -324,6 +358,9 @@ def explore_edits(r, rnd, ndocs):
                         why = judge_edit(text, new_text, fname, fixture)
                         stats["quickfix_applied"] += 1
                         stats["shape:" + shapes.get(fname, "?")] += 1
+                        sc = star_case(text, dict(fn_nodes(tree)).get(fname), edits)
+                        if sc:
+                            scases.append(dict(sc, function=fname, text=text, edits=edits))
                         if why is None:
                             kcases.append({"kind": "quick fix", "before": fn_kinds(tree, fname), "x": fixture,
                                            "after": fn_kinds(ast.parse(new_text), fname), "function": fname,
